@@ -104,7 +104,7 @@ Proof. intros H. exact H. Qed.
 (* the first child that is not whitespace / comment is a DML or DDL keyword leaf: its value, upper-cased *)
 Theorem get_type_keyword : forall c v pre ty kw rest,
   forallb skippable pre = true -> ty = T_DML \/ ty = T_DDL ->
-  get_type (Grp c v (pre ++ Leaf ty kw :: rest)) = Ok (upper kw).
+  get_type (Grp c v (pre ++ Leaf ty kw :: rest)) = Ok (knorm kw).
 Proof.
   intros c v pre ty kw rest Hpre Hty.
   unfold get_type, get_type_kids. rewrite find_from_0.
@@ -163,7 +163,7 @@ Lemma cte_loop_reach : forall mid pfx x fuel I ws2 kw rest,
   length mid < fuel ->
   forallb (fun t => negb (is_cte_def t)) mid = true ->
   is_cte_def I = true -> forallb is_ws ws2 = true ->
-  cte_loop fuel (length pfx) (pfx ++ x :: mid ++ I :: ws2 ++ Leaf T_DML kw :: rest) = Ok (upper kw).
+  cte_loop fuel (length pfx) (pfx ++ x :: mid ++ I :: ws2 ++ Leaf T_DML kw :: rest) = Ok (knorm kw).
 Proof.
   induction mid as [|m mid IH]; intros pfx x fuel I ws2 kw rest Hf Hmid HI Hws.
   - destruct fuel as [|f]; [cbn [length] in Hf; lia|].
@@ -192,7 +192,7 @@ Theorem get_type_cte : forall c v pre w mid I ws2 kw rest,
   forallb skippable pre = true ->
   forallb (fun t => negb (is_cte_def t)) mid = true ->
   is_cte_def I = true -> forallb is_ws ws2 = true ->
-  get_type (Grp c v (pre ++ Leaf T_CTE w :: mid ++ I :: ws2 ++ Leaf T_DML kw :: rest)) = Ok (upper kw).
+  get_type (Grp c v (pre ++ Leaf T_CTE w :: mid ++ I :: ws2 ++ Leaf T_DML kw :: rest)) = Ok (knorm kw).
 Proof.
   intros c v pre w mid I ws2 kw rest Hpre Hmid HI Hws.
   unfold get_type, get_type_kids. rewrite find_from_0.
@@ -282,17 +282,69 @@ Definition C18_create_or_replace : Prop :=
     cur_parse (x_create ++ sp1 ++ x_or ++ sp2 ++ x_replace ++ x_view_tail) = Ok (s :: stmts) ->
     get_type s = Ok x_CREATE_OR_REPLACE.
 
-(* create  or\n replace view v as select 1 : the type string keeps the whitespace as written *)
-Theorem C18_create_or_replace_refuted : ~ C18_create_or_replace.
+(* create  or\n replace view v as select 1 : until Token.normalized collapsed the white space inside compound keywords
+   (fix in /repo) the type string kept the whitespace as written and this witness REFUTED the statement above *)
+Example C18_create_or_replace_ws_ex :
+  exists s, cur_parse (x_create ++ [32; 32] ++ x_or ++ [10; 32] ++ x_replace ++ x_view_tail)%N = Ok [s]
+            /\ get_type s = Ok x_CREATE_OR_REPLACE.
+Proof. eexists; split; [vm_compute; reflexivity | vm_compute; reflexivity]. Qed.
+
+(* token level, EVERY blank run: a DDL leaf spelled create<run>or<run>replace has the type CREATE OR REPLACE *)
+Lemma blank_run_spec l : blank_run l = true ->
+  l <> [] /\ Forall (fun c => c = 32 \/ c = 9 \/ c = 10)%N l.
 Proof.
-  intros H.
-  assert (E : exists s, cur_parse (x_create ++ [32; 32] ++ x_or ++ [10; 32] ++ x_replace ++ x_view_tail)%N = Ok [s]
-                        /\ get_type s = Ok [67; 82; 69; 65; 84; 69; 32; 32; 79; 82; 10; 32; 82; 69; 80; 76; 65; 67; 69]%N)
-    by (eexists; split; [vm_compute; reflexivity | vm_compute; reflexivity]).
-  destruct E as (s & E1 & E2).
-  specialize (H [32; 32]%N [10; 32]%N s [] eq_refl eq_refl E1). rewrite E2 in H. discriminate H.
+  unfold blank_run. intros H. apply andb_true_iff in H. destruct H as [H1 H2]. split.
+  - destruct l; [discriminate|discriminate].
+  - apply Forall_forall. intros c Hc. rewrite forallb_forall in H2. specialize (H2 c Hc).
+    apply orb_true_iff in H2. destruct H2 as [H2|H2]; [apply orb_true_iff in H2; destruct H2 as [H2|H2]|];
+      apply N.eqb_eq in H2; auto.
 Qed.
-Print Assumptions C18_create_or_replace_refuted.
+
+Lemma upper_app a b : upper (a ++ b) = upper a ++ upper b.
+Proof. unfold upper, py_upper. apply flat_map_app. Qed.
+
+Lemma upper_blanks l : Forall (fun c => c = 32 \/ c = 9 \/ c = 10)%N l -> upper l = l.
+Proof.
+  induction 1 as [|c l Hc _ IH]; [reflexivity|].
+  change (c :: l) with ([c] ++ l) at 1. rewrite upper_app, IH.
+  destruct Hc as [-> | [-> | ->]]; reflexivity.
+Qed.
+
+Lemma js_go_blanks : forall l st r, Forall (fun c => c = 32 \/ c = 9 \/ c = 10)%N l -> l <> [] ->
+  js_go space_set st (l ++ r) = js_go space_set (match st with JsStart => JsStart | _ => JsGap end) r.
+Proof.
+  induction l as [|c l IH]; intros st r H Hne; [congruence|].
+  inversion H as [|? ? Hc Hl]; subst. cbn [app js_go].
+  assert (E : cmem c space_set = true) by (destruct Hc as [-> | [-> | ->]]; reflexivity).
+  rewrite E. destruct l as [|d l'].
+  - reflexivity.
+  - rewrite (IH _ r Hl) by discriminate. destruct st; reflexivity.
+Qed.
+
+Theorem knorm_create_or_replace : forall sp1 sp2, blank_run sp1 = true -> blank_run sp2 = true ->
+  knorm (x_create ++ sp1 ++ x_or ++ sp2 ++ x_replace) = x_CREATE_OR_REPLACE.
+Proof.
+  intros sp1 sp2 H1 H2. destruct (blank_run_spec _ H1) as [N1 F1]. destruct (blank_run_spec _ H2) as [N2 F2].
+  unfold knorm, join_split. rewrite !upper_app, (upper_blanks _ F1), (upper_blanks _ F2).
+  change (upper x_create) with [67; 82; 69; 65; 84; 69]%N.
+  change (upper x_or) with [79; 82]%N. change (upper x_replace) with [82; 69; 80; 76; 65; 67; 69]%N.
+  cbn [app js_go cmem]. change (cmem 67 space_set) with false. change (cmem 82 space_set) with false.
+  change (cmem 69 space_set) with false. change (cmem 65 space_set) with false. change (cmem 84 space_set) with false.
+  cbv iota. rewrite (js_go_blanks sp1 JsWord _ F1 N1).
+  cbn [app js_go]. change (cmem 79 space_set) with false. change (cmem 82 space_set) with false. cbv iota.
+  rewrite (js_go_blanks sp2 JsWord _ F2 N2). vm_compute. reflexivity.
+Qed.
+
+Theorem C18_create_or_replace_token : forall c v pre sp1 sp2 rest,
+  forallb skippable pre = true -> blank_run sp1 = true -> blank_run sp2 = true ->
+  get_type (Grp c v (pre ++ Leaf T_DDL (x_create ++ sp1 ++ x_or ++ sp2 ++ x_replace) :: rest))
+  = Ok x_CREATE_OR_REPLACE.
+Proof.
+  intros c v pre sp1 sp2 rest Hp H1 H2.
+  rewrite (get_type_keyword c v pre T_DDL _ rest Hp (or_intror eq_refl)), (knorm_create_or_replace _ _ H1 H2).
+  reflexivity.
+Qed.
+Print Assumptions C18_create_or_replace_token.
 
 (* the hypotheses of the three positive theorems are met by parsed statements *)
 Example get_type_keyword_ex :
@@ -513,7 +565,7 @@ Proof. vm_compute. reflexivity. Qed.
 
 Lemma as_leaf_match askw : upper askw = s_AS -> match_pat (as_leaf askw) as_pat = true.
 Proof.
-  intros H. unfold match_pat, as_leaf, as_pat. cbn [fst snd map existsb].
+  intros H. unfold match_pat, as_leaf, as_pat, knorm. cbn [fst snd map existsb].
   rewrite H, upper_AS. reflexivity.
 Qed.
 
@@ -1273,7 +1325,7 @@ Lemma upper_case_kws :
   upper s_END = s_END.
 Proof. repeat split; vm_compute; reflexivity. Qed.
 
-Lemma kw_leaf_match v k : match_pat (kw_leaf v) (kw_pat k) = text_eqb (upper v) (upper k).
+Lemma kw_leaf_match v k : match_pat (kw_leaf v) (kw_pat k) = text_eqb (knorm v) (upper k).
 Proof. unfold match_pat, kw_leaf, kw_pat. cbn [fst snd map existsb ttype_eqb T_Keyword tcomp_eqb tin andb]. rewrite orb_false_r. reflexivity. Qed.
 
 Lemma text_eqb_refl t : text_eqb t t = true.
@@ -1365,16 +1417,21 @@ Hypothesis HWHEN : upper kWHEN = s_WHEN.
 Hypothesis HTHEN : upper kTHEN = s_THEN.
 Hypothesis HELSE : upper kELSE = s_ELSE.
 Hypothesis HEND : upper kEND = s_END.
+Lemma KCASE : knorm kCASE = s_CASE. Proof. unfold knorm. rewrite HCASE. reflexivity. Qed.
+Lemma KWHEN : knorm kWHEN = s_WHEN. Proof. unfold knorm. rewrite HWHEN. reflexivity. Qed.
+Lemma KTHEN : knorm kTHEN = s_THEN. Proof. unfold knorm. rewrite HTHEN. reflexivity. Qed.
+Lemma KELSE : knorm kELSE = s_ELSE. Proof. unfold knorm. rewrite HELSE. reflexivity. Qed.
+Lemma KEND : knorm kEND = s_END. Proof. unfold knorm. rewrite HEND. reflexivity. Qed.
 
 Lemma step_CASE st : step st (kw_leaf kCASE) = Ok st.
 Proof.
-  unfold case_step, node_id. rewrite kw_leaf_match, HCASE, (proj1 upper_case_kws), text_eqb_refl. reflexivity.
+  unfold case_step, node_id. rewrite kw_leaf_match, KCASE, (proj1 upper_case_kws), text_eqb_refl. reflexivity.
 Qed.
 
 Lemma step_WHEN mode ret : step (mode, ret) (kw_leaf kWHEN) = Ok (MCond, (Some [kw_leaf kWHEN], []) :: ret).
 Proof.
   destruct upper_case_kws as (U1 & U2 & U3 & U4 & U5).
-  unfold case_step, node_id. rewrite !kw_leaf_match, HWHEN, U1, U2.
+  unfold case_step, node_id. rewrite !kw_leaf_match, KWHEN, U1, U2.
   assert (E1 : text_eqb s_WHEN s_CASE = false) by reflexivity. rewrite E1, text_eqb_refl.
   assert (E2 : tt_in (kw_leaf kWHEN) T_Whitespace = false) by reflexivity. rewrite E2, andb_false_r.
   reflexivity.
@@ -1384,7 +1441,7 @@ Lemma step_THEN mode c v r :
   step (mode, (c, v) :: r) (kw_leaf kTHEN) = Ok (MVal, (c, kw_leaf kTHEN :: v) :: r).
 Proof.
   destruct upper_case_kws as (U1 & U2 & U3 & U4 & U5).
-  unfold case_step, node_id. rewrite !kw_leaf_match, HTHEN, U1, U2, U3.
+  unfold case_step, node_id. rewrite !kw_leaf_match, KTHEN, U1, U2, U3.
   assert (E1 : text_eqb s_THEN s_CASE = false) by reflexivity.
   assert (E3 : text_eqb s_THEN s_WHEN = false) by reflexivity. rewrite E1, E3, text_eqb_refl.
   assert (E2 : tt_in (kw_leaf kTHEN) T_Whitespace = false) by reflexivity. rewrite E2, andb_false_r.
@@ -1395,7 +1452,7 @@ Lemma step_ELSE mode ret :
   step (mode, ret) (kw_leaf kELSE) = Ok (MVal, (None, [kw_leaf kELSE]) :: ret).
 Proof.
   destruct upper_case_kws as (U1 & U2 & U3 & U4 & U5).
-  unfold case_step, node_id. rewrite !kw_leaf_match, HELSE, U1, U2, U3, U4.
+  unfold case_step, node_id. rewrite !kw_leaf_match, KELSE, U1, U2, U3, U4.
   assert (E1 : text_eqb s_ELSE s_CASE = false) by reflexivity.
   assert (E3 : text_eqb s_ELSE s_WHEN = false) by reflexivity.
   assert (E4 : text_eqb s_ELSE s_THEN = false) by reflexivity. rewrite E1, E3, E4, text_eqb_refl.
@@ -1406,7 +1463,7 @@ Qed.
 Lemma step_END mode ret : step (mode, ret) (kw_leaf kEND) = Ok (MNone, ret).
 Proof.
   destruct upper_case_kws as (U1 & U2 & U3 & U4 & U5).
-  unfold case_step, node_id. rewrite !kw_leaf_match, HEND, U1, U2, U3, U4, U5.
+  unfold case_step, node_id. rewrite !kw_leaf_match, KEND, U1, U2, U3, U4, U5.
   assert (E1 : text_eqb s_END s_CASE = false) by reflexivity.
   assert (E3 : text_eqb s_END s_WHEN = false) by reflexivity.
   assert (E4 : text_eqb s_END s_THEN = false) by reflexivity.
